@@ -123,6 +123,18 @@ func c04Base(variant int) gen.S {
 		dig(doc, "components", "headers", "Shared")["example"] = gen.Arr("a", "b")
 		dig(doc, "components", "responses", "Error", "content")["application/octet-stream"] = gen.S{"example": "AAEC"}
 		dig(doc, "components", "callbacks", "Hook", "{$request.query.url}", "get")["operationId"] = "hookGet"
+		// the direction an example is read in belongs to the place it stands at: a request body's example (read-only properties
+		// absent), a response's (write-only absent), and parameters of sibling operations whose example carries a write-only
+		// property (fine in a request), validated after the responses of the operation before
+		dirSchema := gen.S{"type": "object", "properties": gen.S{"id": gen.S{"type": "integer", "readOnly": true}, "pw": gen.S{"type": "string", "writeOnly": true}, "n": gen.S{"type": "string"}}}
+		qp := func() gen.S {
+			return gen.S{"name": "filter", "in": "query", "style": "deepObject", "explode": true, "schema": gen.S{"type": "object", "properties": gen.S{"pw": gen.S{"type": "string", "writeOnly": true}}}, "example": gen.S{"pw": "x"}}
+		}
+		dig(doc, "paths")["/dir"] = gen.S{
+			"get": gen.S{"operationId": "dirGet", "parameters": gen.Arr(qp()), "responses": gen.S{"200": gen.S{"description": "ok", "content": gen.S{"application/json": gen.S{"schema": dirSchema, "example": gen.S{"id": 1.0, "n": "a"}}}}}},
+			"post": gen.S{"operationId": "dirPost", "parameters": gen.Arr(qp()), "requestBody": gen.S{"content": gen.S{"application/json": gen.S{"schema": dirSchema, "example": gen.S{"pw": "s", "n": "a"}}}},
+				"responses": gen.S{"200": gen.S{"description": "ok"}}},
+			"put": gen.S{"operationId": "dirPut", "parameters": gen.Arr(qp()), "responses": gen.S{"204": gen.S{"description": "none"}}}}
 	}
 	if variant == 1 {
 		// a leaner variant without servers/security, relative server, extensions everywhere
@@ -476,6 +488,27 @@ func c04Rules() []c04rule {
 		l.obj["example"], l.obj["examples"] = "a", gen.S{"e": gen.S{"value": "a"}}
 		return true
 	})
+	// an example that carries a property its place forbids: read-only below a request body, write-only below a response
+	rules = append(rules, c04rule{name: "example-carries-property-of-the-other-direction", kind: "mediaType", disabled: "DisableExamplesValidation", apply: func(l c04loc) bool {
+		sch, ok := l.obj["schema"].(gen.S)
+		ex, ok2 := l.obj["example"].(gen.S)
+		if !ok || !ok2 {
+			return false
+		}
+		props, _ := sch["properties"].(gen.S)
+		if _, has := props["pw"]; !has {
+			return false
+		}
+		switch {
+		case strings.Contains(l.where, "requestBody"):
+			ex["id"] = 7.0
+		case strings.Contains(l.where, "response"):
+			ex["pw"] = "leak"
+		default:
+			return false
+		}
+		return true
+	}})
 	rules = append(rules, c04rule{name: "example-violates-schema", kind: "mediaType", disabled: "DisableExamplesValidation", apply: func(l c04loc) bool {
 		s, ok := l.obj["schema"].(gen.S)
 		if !ok || typeOf(s) != "string" {
